@@ -110,6 +110,8 @@ func (p *ProcessConfig) Compare(another *ProcessConfig) bool {
 		!reflect.DeepEqual(p.DependsOn, another.DependsOn) ||
 		!reflect.DeepEqual(p.RestartPolicy, another.RestartPolicy) ||
 		!reflect.DeepEqual(p.Environment, another.Environment) ||
+		!reflect.DeepEqual(p.Entrypoint, another.Entrypoint) ||
+		p.Executable != another.Executable ||
 		!reflect.DeepEqual(p.Args, another.Args) {
 		//diffs := compareStructs(*p, *another)
 		//log.Warn().Msgf("Structs are different: %s", diffs)
